@@ -99,6 +99,23 @@ func splitBudget(r *core.Rng, total, n int) []int {
 	return out
 }
 
+// edgeLen is a length next to an internal buffer size: the 4096-byte bufio
+// buffer (and its multiples) for medium inputs, bufio.Scanner's 64 KiB token
+// limit for large ones. ok=false: no edge length for this size class.
+func edgeLen(r *core.Rng, sz Size) (int, bool) {
+	switch sz {
+	case Medium:
+		if r.Chance(0.4) {
+			return 4096*r.Range(1, 2) + r.Range(-3, 3), true
+		}
+	case Large:
+		if r.Chance(0.6) {
+			return core.Pick(r, []int{65536, 65536, 65536, 131072, 4096 * r.Range(3, 20)}) + r.Range(-3, 3), true
+		}
+	}
+	return 0, false
+}
+
 func genFasta(r *core.Rng, sz Size) Doc {
 	var d Doc
 	n := nrec(r, sz)
@@ -108,12 +125,19 @@ func genFasta(r *core.Rng, sz Size) Doc {
 		maxName = 2
 	}
 	blank := r.Chance(0.3)
+	edge := r.Intn(n + 1)
 	for i := 0; i < n; i++ {
-		if !(i == 0 && r.Chance(0.12)) {
+		if !(i == 0 && r.Chance(0.12)) || i == edge {
 			d.Lines = append(d.Lines, append([]byte(">"), r.Bytes(r.Range(0, maxName), nameAlpha)...))
 		}
 		seq := r.Bytes(lens[i], seqAlpha)
 		width := []int{1, 3, 60, 70, 80, 4096, 1 << 30}[r.Intn(7)]
+		if e, ok := edgeLen(r, sz); ok && i == edge {
+			seq, width = r.Bytes(e, seqAlpha), 1<<30
+			if r.Chance(0.2) { // or a name line of that length
+				d.Lines[len(d.Lines)-1] = append([]byte(">"), r.Bytes(e-1, nameAlpha)...)
+			}
+		}
 		for len(seq) > 0 {
 			w := width
 			if r.Chance(0.2) {
@@ -150,6 +174,12 @@ func genFastq(r *core.Rng, sz Size) Doc {
 		l := lens[i]
 		if l > 65000 && r.Chance(0.5) {
 			l = 65000 // stay below the scanner limit in about half of the large records
+		}
+		if e, ok := edgeLen(r, sz); ok && (i == n-1 || r.Chance(0.3)) {
+			l = e
+			if r.Chance(0.15) {
+				name = r.Bytes(e-1, nameAlpha)
+			}
 		}
 		d.Lines = append(d.Lines, append([]byte("@"), name...))
 		d.Lines = append(d.Lines, r.Bytes(l, dnaAlpha))
@@ -213,6 +243,11 @@ func genSam(r *core.Rng, sz Size) Doc {
 	}
 	for i := 0; i < n; i++ {
 		l := lens[i]
+		e, edge := edgeLen(r, sz)
+		edge = edge && (i == n-1 || r.Chance(0.3))
+		if edge {
+			l = r.Range(0, 40)
+		}
 		fields := []string{word(r, 0, 8), strconv.Itoa(r.Intn(4096)), word(r, 1, 5), num(r), strconv.Itoa(r.Intn(256)),
 			core.Pick(r, []string{"*", "10M", "3S7M2I", "5M1D5M"}), core.Pick(r, []string{"=", "*", "chr2"}), num(r), num(r),
 			string(r.Bytes(l, dnaAlpha)), string(r.Bytes(l, "!#5IJ~@+>("))}
@@ -221,6 +256,13 @@ func genSam(r *core.Rng, sz Size) Doc {
 		}
 		for t, nt := 0, r.Intn(4); t < nt && sz != Tiny; t++ {
 			fields = append(fields, samTag(r, t))
+		}
+		if need := e - len(strings.Join(fields, "\t")); edge && need > 0 && sz != Tiny {
+			// make the whole line an edge length: longer SEQ/QUAL (kept equal) and QNAME
+			pad := string(r.Bytes(need/2, dnaAlpha))
+			fields[9] += pad
+			fields[10] += pad
+			fields[0] += strings.Repeat("q", need-2*(need/2))
 		}
 		d.Lines = append(d.Lines, []byte(strings.Join(fields, "\t")))
 		if r.Chance(0.05) {
@@ -272,6 +314,15 @@ func genBed(r *core.Rng, sz Size) Doc {
 			num(r), num(r), fmt.Sprintf("%d,%d,%d", r.Intn(256), r.Intn(256), r.Intn(256)), strconv.Itoa(bc), sizes, starts}
 		if sz == Tiny {
 			f[1], f[2] = strconv.Itoa(r.Intn(10)), strconv.Itoa(r.Intn(10))
+		}
+		if e, ok := edgeLen(r, sz); ok && r.Chance(0.3) {
+			if nf > 3 {
+				if need := e - len(strings.Join(f[:nf], "\t")); need > 0 {
+					f[3] += string(r.Bytes(need, wordAlpha))
+				}
+			} else if need := e - len(strings.Join(f[:nf], "\t")); need > 0 {
+				f[0] += string(r.Bytes(need, wordAlpha))
+			}
 		}
 		if nf == 10 && bc != 0 {
 			f[9] = "0" // block lists absent: the count must be zero
@@ -342,6 +393,12 @@ func genNewick(r *core.Rng, sz Size) Doc {
 	for i := 0; i < n; i++ {
 		var toks []string
 		nwkTree(r, depth, 12, &toks)
+		if e, ok := edgeLen(r, sz); ok && r.Chance(0.1) {
+			toks = append([]string{"(", "'" + string(r.Bytes(e, "ab (),:;_")) + "'", ")"}, toks...)
+			if len(toks) > 3 && toks[3] != ":" && toks[3] != ";" {
+				toks = toks[:3] // "(name)" followed directly by a name token would not be well-formed
+			}
+		}
 		toks = append(toks, ";")
 		for _, t := range toks {
 			line = append(line, t...)
@@ -368,9 +425,11 @@ func genNewick(r *core.Rng, sz Size) Doc {
 // Mutate derives an arbitrary input from a well-formed one.
 func Mutate(r *core.Rng, f *Format, in []byte) []byte {
 	out := append([]byte{}, in...)
-	alpha := f.Special + f.Special + "A0a \"'"
+	alpha := f.Special + f.Special + "A0a \"'\x00\xff\xef\xbb\xbf\x80"
 	for k := r.Range(1, 4); k > 0; k-- {
-		switch r.Intn(8) {
+		switch r.Intn(9) {
+		case 8: // leading junk real files carry: a UTF-8/UTF-16 byte order mark, gzip magic, NUL
+			out = append([]byte(core.Pick(r, []string{"\xef\xbb\xbf", "\xef\xbb\xbf", "\xff\xfe", "\x1f\x8b", "\x00", "\xef\xbb"})), out...)
 		case 0: // flip a byte to a special one
 			if len(out) > 0 {
 				out[r.Intn(len(out))] = alpha[r.Intn(len(alpha))]
@@ -426,5 +485,5 @@ func Mutate(r *core.Rng, f *Format, in []byte) []byte {
 
 // RandomBytes is raw noise over the format's delimiter-rich alphabet.
 func RandomBytes(r *core.Rng, f *Format, n int) []byte {
-	return r.Bytes(n, f.Special+f.Special+"Aa0 1\t")
+	return r.Bytes(n, f.Special+f.Special+f.Special+"Aa0 1\t\x00\xff\xef\xbb\xbf")
 }
